@@ -42,11 +42,12 @@ contract(f"{LB}::BaseLoss.compute_loss_1d", abstract=True,
 
 contract(f"{LB}::BaseLoss.compute_loss",
          params={"sim_data_ensemble": "arr3[real]", "real_data": "arr2[real]"}, returns="real",
-         requires=["real_data.shape[1] >= 1"], props=["C08", "C07"],
+         requires=["real_data.shape[1] >= 1"], props=["C08", "C07", "C02", "C11"],
          raises=[{"exc": "ValueError", "when": "self.coordinate_weights is not None and "
                                                 "len(self.coordinate_weights) != real_data.shape[1]"},
                  {"exc": "ValueError", "when": "self.coordinate_filters is not None and "
                                                 "len(self.coordinate_filters) != real_data.shape[1]"}],
+         may_raise=["Exception"],   # user filters / single-coordinate losses may raise anything (C11)
          ensures=[], modifies=[])
 
 _WSUM = "fsum(lambda j: l1d(self, filtered_data[j], real_data[:, j]) * weights[j], {n})"
